@@ -152,7 +152,7 @@ func main() {
 		run.Replay = ""
 	}
 
-	for i := 0; i < run.N(150, 2500); i++ {
+	for i := 0; i < run.N(150, 6000); i++ {
 		g, err := lsx.NewGen(run.R.Fork(uint64(i)), "api", bigCap, false)
 		if err != nil {
 			panic(err)
